@@ -310,11 +310,42 @@ def run_program(item):
     return out
 
 
+def gen_thorough_programs():
+    """deeper grammar: all 4-operand expressions over the 5 operators in 5 parenthesisations; all ordered pairs of
+    statement templates (dataflow between IF forms)."""
+    progs = []
+    A, B, C, D = 'THETA(1)', 'WGT', 'APGR', 'THETA(2)'
+    shapes = ['{a} {o1} {b} {o2} {c} {o3} {d}', '({a} {o1} {b}) {o2} ({c} {o3} {d})', '{a} {o1} ({b} {o2} {c}) {o3} {d}',
+              '{a} {o1} ({b} {o2} ({c} {o3} {d}))', '(({a} {o1} {b}) {o2} {c}) {o3} {d}']
+    for o1, o2, o3 in itertools.product(OPS, repeat=3):
+        for k, sh in enumerate(shapes):
+            # exponents are kept small constants (NM-TRAN real powers of negative bases are undefined on both sides)
+            c = '2' if o2 == '**' else C
+            d = '2' if o3 == '**' else D
+            b = '2' if o1 == '**' else B
+            e = sh.format(a=A, b=b, c=c, d=d, o1=o1, o2=o2, o3=o3)
+            progs.append((f'expr4[{o1}{o2}{o3},{k}] {e}', pred_program(['V1 = ' + e, 'Y = V1 + EPS(1)'])))
+    T = {
+        'assign': ['V1 = THETA(1)*WGT'], 'assign2': ['V2 = V1 + THETA(2)'], 'lif': ['IF (APGR.LT.5) V1 = THETA(2)'],
+        'lif2': ['IF (WGT.GT.70) V2 = V1*2'], 'self': ['V1 = V1*V1'],
+        'blk': ['IF (APGR.LT.3) THEN', 'V1 = THETA(3)', 'ELSE', 'V1 = V1 + 1', 'ENDIF'],
+        'blk2': ['IF (WGT.GT.70) THEN', 'V2 = V1', 'ELSEIF (WGT.GT.50) THEN', 'V2 = 2*V1', 'ELSE', 'V2 = 0', 'ENDIF'],
+        'blk_noelse': ['IF (APGR.EQ.1) THEN', 'V2 = THETA(1)', 'ENDIF'],
+    }
+    for (n1, s1), (n2, s2), (n3, s3) in itertools.product(T.items(), repeat=3):
+        progs.append((f'seq[{n1},{n2},{n3}]', pred_program(['V1 = 1', 'V2 = 2'] + s1 + s2 + s3 + ['Y = V1 + V2 + EPS(1)'])))
+    return progs
+
+
 def all_programs(thorough, seed):
     _init()
     corpus = _W['corpus']
     progs = [('file', f.split('nonmem/')[-1].split('example_models/')[-1], f) for f in corpus.all_model_files()]
     gen = gen_code_programs() + gen_advan_programs() + gen_param_programs()
+    if thorough:
+        extra = gen_thorough_programs()
+        random.Random(seed).shuffle(extra)
+        gen += extra
     progs += [('gen', label, text) for label, text in gen]
     return progs
 
